@@ -1,4 +1,33 @@
-import LZ4V.Spec.Frame
-/-! # C14 — property theorems (in progress) -/
+import LZ4V.Proofs.StreamLProof
+/-!
+# C14 — the CLI never reports success on a failed decode (specification side)
+
+"Exit 0 only if the bytes written equal the specification-defined decoding of the input" needs the specification to
+reject what must be rejected.  Proved here for the stream specification `Spec/FrameL.lean`, for every checksum function
+and block decoder:
+
+* the decoding of an input, when there is one, is unique: there is exactly one byte string `lz4 -d` may write with exit 0;
+* a truncated LZ4 frame is NEVER a valid frame, whatever the cut point (not a property of luck or of checksums: a
+  consequence of locality, the parser never looks beyond the end mark);
+* a complete LZ4 frame followed by garbage (anything non-empty that does not start with a known magic number) does not decode.
+
+The behaviour of the real binaries on all truncation points, bit flips, trailing garbage, k-th stdio call failing,
+`/dev/full`, `--rm`, `-m` is the correspondence of `vlib/cli.py` (the judge decodes the same input with this specification).
+-/
 namespace LZ4V.C14
+open LZ4V.Spec.FrameL
+
+theorem exit0_output_is_determined (E : Env) (dict s c c' : Bytes) (h : Decodes E dict s c) (h' : Decodes E dict s c') : c = c' := h.unique h'
+
+/-- every strict prefix of a valid LZ4 frame is rejected -/
+theorem truncated_lz4_frame_never_decodes (E : Env) (dict : Bytes) (F : Nat) (f t u c : Bytes)
+    (hf : pFrame E dict F f = .ok (c, [])) (hsplit : f = t ++ u) (hu : u ≠ []) (F' : Nat) (x : Bytes × Bytes) :
+    pFrame E dict F' t ≠ .ok x := truncated_frame_rejected E dict F f t u c hf hsplit hu F' x
+
+/-- a valid LZ4 frame followed by undecodable data is rejected -/
+theorem frame_followed_by_garbage_never_decodes (E : Env) (dict : Bytes) (F : Nat) (f c g : Bytes)
+    (hf : pFrame E dict F f = .ok (c, [])) (hg : g ≠ [])
+    (hbad : g.length < 4 ∨ LZ4V.Spec.Frame.isKnownMagic (le (g.take 4)) = false) (c' : Bytes) :
+    ¬ Decodes E dict (f ++ g) c' := garbage_after_frame_rejected E dict F f c g hf hg hbad c'
+
 end LZ4V.C14
